@@ -691,10 +691,13 @@ TTYPE = {"dp0": "p0", "dp1": "p1", "p1": "p1", "rwg0": "rwg0", "snc0": "snc0"}
 
 
 def _run(ctx, api, res, deep):
-    """Every (kernel, basis-evaluator pair) and every callable is a separate Numba compilation (5-10 s).  The quick
-    tier therefore fixes one scalar type pair (x, y) and one vector type pair (v, w) per run (from ctx.rng) and draws
-    all its cases -- whole-grid and segment variants, both grids, random orders -- from the combinations
-    (x,x), (v,v) and one of (x,y), (y,x), (v,w), (w,v); the thorough tier covers all combinations and all orders 1..20."""
+    """Every (kernel, pair of basis evaluators, argument signature -- whole-grid and segment spaces differ) and every
+    callable is a separate Numba compilation (5-10 s each on an idle machine).  The quick tier therefore fixes per run
+    (from ctx.rng) one scalar basis type x and one vector basis type v, one of them on a segment, and ONE mixed
+    combination out of (x,y), (y,x), (v,w), (w,v); it checks the two mass matrices, same-class partners (P1 with DP1,
+    other segment variants), the mixed pair, Laplace-Beltrami, the grid-function queries and callables on the two
+    chosen spaces, and the (NumPy) multiplication operator on random combinations incl. segments, on both grids with
+    random orders.  The thorough tier covers all combinations and all orders 1..20."""
     R = Runner(ctx, api, res, deep)
     rng = ctx.rng
     thorough = R.thorough
@@ -704,11 +707,22 @@ def _run(ctx, api, res, deep):
     yt = "p1" if xt == "p0" else "p0"
     vt = rng.choice(["rwg0", "snc0"])
     wt = "snc0" if vt == "rwg0" else "rwg0"
-    # (dual type, domain type): both mass matrices and ONE mixed combination
-    allowed = {(xt, xt), (vt, vt), rng.choice([(xt, yt), (yt, xt), (vt, wt), (wt, vt)])}
+    seg_of = {xt: rng.random() < 0.5}
+    seg_of[vt] = not seg_of[xt]
+    seg_of[yt], seg_of[wt] = rng.random() < 0.5, rng.random() < 0.5
+    mixed = rng.choice([(xt, yt), (yt, xt), (vt, wt), (wt, vt)])  # (dual type, domain type)
     focus = [f for f in os.environ.get("VERIF_ORACLE_FOCUS", "").split(",") if f]
-    res.stats["quick_type_combinations"] = None if thorough else sorted(allowed)
+    res.stats["quick_plan"] = None if thorough else dict(mass_matrices=[xt, vt], mixed=mixed,
+                                                         on_segment={k: bool(v) for k, v in seg_of.items()})
     tt = lambda e: TTYPE[e[1]]
+    is_seg = lambda e: "seg" in e[0]
+
+    def pick(group, ttype, seg, exclude=()):
+        c = [e for e in group if tt(e) == ttype and is_seg(e) == seg and all(e is not x for x in exclude)]
+        if not c:
+            c = [e for e in group if tt(e) == ttype and all(e is not x for x in exclude)]
+        return rng.choice(c) if c else None
+
     for gi, (gname, g) in enumerate(grids.items()):
         entries = space_list(api, gname, g, thorough)
         ctx.log(f"{gname}: {len(entries)} spaces built: {time.time() - t0:.1f}s")
@@ -717,43 +731,45 @@ def _run(ctx, api, res, deep):
         # (1) identity   pairs (domain a, dual b)
         pairs = [(a, b) for grp in (scal, vec) for a in grp for b in grp]
         if not thorough:
-            ok = [p for p in pairs if (tt(p[1]), tt(p[0])) in allowed]
-            sel = []
-            for combo in sorted(allowed):
-                cands = [p for p in ok if (tt(p[1]), tt(p[0])) == combo]
-                if combo[0] == combo[1]:
-                    eq = [p for p in cands if p[0] is p[1]]
-                    sel += rng.sample(eq, min(2, len(eq)))
-                    cands = [p for p in cands if p[0] is not p[1]]
-                sel += rng.sample(cands, min(2, len(cands)))
-            pairs = sel
+            ex, ev = pick(scal, xt, seg_of[xt]), pick(vec, vt, seg_of[vt])
+            chosen = {xt: ex, vt: ev}
+            pairs = [(ex, ex), (ev, ev)]
+            partners = {}
+            for e, grp in ((ex, scal), (ev, vec)):
+                pe = pick(grp, tt(e), is_seg(e), exclude=(e,))
+                if pe is not None and is_seg(pe) == is_seg(e):
+                    partners[tt(e)] = pe
+                    pairs += [(e, pe), (pe, e)] if rng.random() < 0.5 else [(pe, e)]
+            grp = scal if mixed[0] in ("p0", "p1") else vec
+            dual = chosen.get(mixed[0]) or pick(grp, mixed[0], seg_of[mixed[0]])
+            dom = chosen.get(mixed[1]) or pick(grp, mixed[1], seg_of[mixed[1]])
+            pairs.append((dom, dual))
         for a, b in pairs:
             t1 = time.time()
             R.check_identity(a, b)
             if time.time() - t1 > 2:
                 ctx.log(f"   identity {a[0]} x {b[0]}: {time.time() - t1:.1f}s")
         ctx.log(f"{gname}: identity on {len(pairs)} pairs: {time.time() - t0:.1f}s")
-        # (2) Laplace-Beltrami (P1 and DP1 share the evaluator: one compilation)
+        # (2) Laplace-Beltrami (P1 and DP1 share the evaluator)
         p1s = [e for e in scal if e[1] in ("p1", "dp1")]
         lbp = [(a, b) for a in p1s for b in p1s]
         if not thorough:
-            lbp = [(a, a) for a in p1s if a[0].endswith(":p1")] + rng.sample(lbp, 3)
+            full = [e for e in p1s if not is_seg(e)]
+            lbp = [(a, a) for a in full if a[1] == "p1"] + rng.sample([(a, b) for a in full for b in full], 2)
+            segp = [e for e in p1s if is_seg(e)]
+            if gi == 0 and segp:
+                a = rng.choice(segp)
+                lbp.append((a, a))
         for a, b in lbp:
             R.check_lb(a, b)
         ctx.log(f"{gname}: laplace_beltrami on {len(lbp)} pairs: {time.time() - t0:.1f}s")
         # (4) grid function queries
-        if thorough:
-            gfe = entries
-        else:
-            gfe = rng.sample([e for e in scal if tt(e) == xt], 1) + rng.sample([e for e in vec if tt(e) == vt], 1)
-            segs = [e for e in entries if "seg" in e[0] and tt(e) in (xt, vt)]
-            gfe += rng.sample(segs, min(1, len(segs)))
+        gfe = entries if thorough else [ex, ev]
         for i, e in enumerate(gfe):
             others = [o for o in entries if o is not e]
             if not thorough:
-                others = [o for o in others if (tt(o), tt(e)) in allowed]
-                others = rng.sample(others, min(3, len(others)))
-            for cplx in ((False, True) if thorough else (bool(i % 2),)):
+                others = [o for o in (partners.get(tt(e)), dual if dom is e else None) if o is not None]
+            for cplx in ((False, True) if thorough else (bool((i + gi) % 2),)):
                 R.check_gridfunction(e, others, cplx, rng.choice([o for o in range(2, 21) if o != 4]))
         ctx.log(f"{gname}: grid function queries on {len(gfe)} spaces: {time.time() - t0:.1f}s")
         # (5) multiplication operator (NumPy code; only space.evaluate is compiled, once per basis type)
@@ -769,12 +785,13 @@ def _run(ctx, api, res, deep):
                 for t in scal:
                     combos.append((gentry, d, t, "inner"))
         combos = [c for c in combos if set(R.ref(c[0][2]).support) & set(R.ref(c[1][2]).support) & set(R.ref(c[2][2]).support)]
-        withseg = [c for c in combos if any("seg" in x[0] for x in c[:3])]
+        withseg = [c for c in combos if any(is_seg(x) for x in c[:3])]
         inner = [c for c in combos if c[3] == "inner"]
+        vcomp = [c for c in combos if c[3] == "component" and c[0][1] in ("rwg0", "snc0")]
         if thorough:
             sel = rng.sample(combos, min(len(combos), 150)) + rng.sample(inner, min(len(inner), 30))
         else:
-            sel = (rng.sample(withseg, min(3, len(withseg))) + rng.sample(inner, 2)
+            sel = (rng.sample(withseg, min(3, len(withseg))) + rng.sample(inner, 2) + rng.sample(vcomp, 2)
                    + rng.sample([c for c in inner if c in withseg], 1) + rng.sample(combos, 2))
         for gentry, d, t, mode in sel:
             R.check_mult(gentry, d, t, mode, rng.random() < 0.4, rng.choice([o for o in range(3, 21) if o != 4]))
@@ -784,17 +801,12 @@ def _run(ctx, api, res, deep):
         if thorough:
             plan = [(e, f, cplx) for e in entries for f in flavours for cplx in (False, True)]
             plan = rng.sample(plan, min(len(plan), 36 if gname == "cube" else 10))
+        elif gi == 0:
+            a, b = (ex, ev) if rng.random() < 0.5 else (ev, ex)
+            plan = [(a, rng.choice(["jit", "parameterized"]), rng.random() < 0.5), (b, "nojit", rng.random() < 0.5),
+                    (a, "vectorized", rng.random() < 0.5), (b, "vectorized-parameterized", True)]
         else:
-            mine = [e for e in entries if tt(e) in (xt, vt)]
-            segs = [e for e in mine if "seg" in e[0]]
-            myvec = [e for e in mine if tt(e) == vt]
-            if gi == 0:
-                plan = [(rng.choice(myvec), rng.choice(["jit", "parameterized"]), rng.random() < 0.5),
-                        (rng.choice(segs), "nojit", rng.random() < 0.5),
-                        (rng.choice(mine), "vectorized", rng.random() < 0.5),
-                        (rng.choice(segs), "vectorized-parameterized", True)]
-            else:
-                plan = [(rng.choice(mine), rng.choice(["vectorized", "vectorized-parameterized"]), True)]
+            plan = [(rng.choice([ex, ev]), rng.choice(["vectorized", "vectorized-parameterized"]), True)]
         if focus:
             plan = [(e, f, c) for e, f, c in plan if f in focus] or plan
         for e, f, cplx in plan:
@@ -802,7 +814,8 @@ def _run(ctx, api, res, deep):
             R.check_projection(e, f, cplx, rng.choice(R.interior_orders(2, hi)))
         if thorough or gi == 0:
             # globally polynomial callables: every order >= 2, including the rules with points outside the element
-            R.check_analytic([e for e in entries if thorough or tt(e) == xt], rng.choice([2, 3, 5, 6, 9, 11, 15, 18, 20]))
+            R.check_analytic([e for e in entries if thorough or e is ex or e is partners.get(xt)],
+                             rng.choice([2, 3, 5, 6, 9, 11, 15, 18, 20]))
         ctx.log(f"{gname}: projections ({len(plan)} callables): {time.time() - t0:.1f}s")
     res.stats["worst"] = {k: float(f"{v:.3e}") for k, v in sorted(R.worst.items())}
     res.stats["tolerances"] = dict(entries=TOL, coefficients_after_solve=TOL_SOLVE)
